@@ -5,7 +5,8 @@
     wrappers ([mw_sem], [pdec_sem], [sdec_sem]); [exec] is the registration state machine.
     Quantifiers: every program, every snapshot / decorator list (no length bound), every inner
     handler function, every delivery. *)
-From WM Require Import Base.Prelude Message.Model Handler.RouterHandle Router.Wiring Router.WiringSpec Router.WiringProofs.
+From WM Require Import Base.Prelude Message.Model Handler.RouterHandle Router.Wiring Router.WiringSpec Router.WiringProofs
+  Router.Life Router.LifeProofs Corr.C08 Corr.C09 Router.LifeAccept Router.WiringGen.
 
 (** What a handler freezes (programs without Stop / failing constructors): if handler [n] was added in [pre] and not started in [pre], then after
     [pre ++ Run/RunHandlers :: post] — whatever [post] registers — its snapshot is exactly the
@@ -104,6 +105,15 @@ Proof. exact started_holds_prefix. Qed.
 Theorem C09_decorator_lists_all : forall ops,
   pubdecs (exec rinit ops) = pdecs_of ops /\ subdecs (exec rinit ops) = sdecs_of ops.
 Proof. exact decorators_all. Qed.
+(** Programs with Handler.Stop and names added again (no failing constructor, no asynchronous start): what the
+    Router holds under a name is given by ONE left-to-right scan of the program for that name, independent of
+    all other handlers ([gscan]): the AddHandler of the current generation (the first one after the last
+    effective Stop of the name) and, once a Run/RunHandlers followed it, exactly the registrations and
+    decorator lists of the prefix before that start.  (With failing constructors WHICH start succeeds depends
+    on the other handlers and the constructors' budgets: C09_started_holds_prefix_partial + C09_start_outcome.) *)
+Theorem C09_wiring_is_generation_scan : forall ops n, splain ops = true ->
+  find_handler n (exec rinit ops) = gspec n ops.
+Proof. exact wiring_is_generation_scan. Qed.
 Theorem C09_names_unique : forall ops, NoDup (names (exec rinit ops)).
 Proof. exact names_nodup_all. Qed.
 
@@ -153,6 +163,9 @@ Proof. exact c09_model_accepted. Qed.
 Theorem C09_model_accepted_all : forall ops, c09_monitor_st ops (run rinit ops) = true.
 Proof. exact c09_model_accepted_st. Qed.
 
+Theorem C09_router_program_accepted : forall pops, c09_lviolates (LC pops (prun pinit pops)) = false.
+Proof. exact c09_router_program_accepted. Qed.
+Print Assumptions C09_router_program_accepted.
 Print Assumptions C09_started_freezes_registrations.
 Print Assumptions C09_build_nests.
 Print Assumptions C09_nesting.
@@ -166,6 +179,7 @@ Print Assumptions C09_registrations_never_removed.
 Print Assumptions C09_started_frozen.
 Print Assumptions C09_start_outcome.
 Print Assumptions C09_names_unique.
+Print Assumptions C09_wiring_is_generation_scan.
 Print Assumptions C09_started_holds_prefix_partial.
 Print Assumptions C09_decorator_lists_all.
 Print Assumptions C09_snapshot_linearisation.
@@ -229,3 +243,12 @@ Example C09_witness_window :
                (DL 1 20 cx0 (0%N, false) (Ret [1%N]) PubAccept)) =
   [[OEnter 1; OEnter 8; OEnter 9; OFn; OExit 9; OExit 8; OExit 1; OPubDec 50; OPub]].
 Proof. reflexivity. Qed.
+
+(** generations: A (own middleware 2) is started, stopped, added again with other topics and its own 7, started
+    again: the scan names the SECOND AddHandler and the prefix before the second start *)
+Example C09_witness_generation_scan :
+  let ops := [OAddHandler exA; OAddHMw 10 2 None; OStart; OStop 10; OAddHandler (HC 10 1 7 23 PNil 0 4); OAddHMw 10 7 None; OStart; OAddMw 9 None] in
+  gspec 10 ops = Some (HS (HC 10 1 7 23 PNil 0 4)
+                          (Some (ST [MR false 10 2 None; MR false 10 7 None] [] [])))
+  /\ find_handler 10 (exec rinit ops) = gspec 10 ops.
+Proof. split; reflexivity. Qed.
